@@ -190,7 +190,7 @@ func vfH_C05_session_bytes() {
 	vfReach("connected")
 	var n int
 	if vfTier() == 0 {
-		n = pr.client.headerSize - fecHeaderSizePlus2*min(d, 1) + []int{0, 5, 11, 12, 13, 23, 24, 32, 33}[vfPick("dg_n", 0, 8)]
+		n = pr.client.headerSize - fecHeaderSizePlus2*min(d, 1) + vfPick("dg_n", 0, 34)
 	} else {
 		n = vfPick("dg_n", 0, 64)
 	}
